@@ -64,6 +64,7 @@ def lmutOfJson (j : Json) : Except String LMut := do
   | "reverse" => pure .reverse
   | "sort" => pure (.sort (← j.getObjValAs? (List Nat) "perm"))
   | "sortFail" => pure .sortFail
+  | "sortRaise" => pure (.sortRaise (← j.getObjValAs? (List Nat) "perm"))
   | "clear" => pure .clear
   | "iadd" => pure (.iadd (← argKind j) (← argTs j "vs"))
   | "imul" => pure (.imul (← argInt j "c"))
